@@ -324,9 +324,11 @@ fn exec_ops(ops: &[Op]) -> Result<Sx, String> {
     let seen: Vec<Ev> = log.lock().unwrap().clone();
     // leave the reusable globals clean
     for (k, t) in tl_guards.iter().enumerate() { if let Some(t) = t { on(*t, None, move || { let gd = TL_GUARDS.with(|m| m.borrow_mut().remove(&k)); drop(gd); }); } }
-    drop(rt_guards);
-    drop(handles);
+    let mut cleanup_panicked = false;
+    for gd in rt_guards.into_iter().flatten() { cleanup_panicked |= on(0, None, move || drop(gd)).is_none(); }
+    for h in handles.into_iter().flatten() { cleanup_panicked |= on(0, None, move || drop(h)).is_none(); }
     drop(held);
+    if cleanup_panicked { return Err("dropping a guard or attach handle panicked during cleanup (a lock was poisoned?)".into()); }
     for (g, gv) in &map {
         if burnt.contains(g) { continue; }
         for t in 0..NTHREADS + NRUNTIMES {
